@@ -415,7 +415,9 @@ class Gen:
                 return self.leaf(ty, ctx_fixed)
             return {"k": "tostr", "ty": t, "e": var(r.choice(vs))}
         if f == "if":
-            return if_(self.expr("bool", d - 1), self.vblock(ty, d - 1), self.vblock(ty, d - 1))
+            # at most one of the branches may leave the function early; the other one gives the `if` its type
+            first = self.r.random() < 0.5
+            return if_(self.expr("bool", d - 1), self.vblock(ty, d - 1, exit_ok=first), self.vblock(ty, d - 1, exit_ok=not first))
         if f == "block":
             return self.vblock(ty, d - 1)
         if f == "construct":
@@ -496,6 +498,15 @@ class Gen:
             return binop(r.choice(["add", "sub", "mul"]), ty, self.fleaf(ty), self.fleaf(ty))
         return self.fleaf(ty)
 
+    def arm_body(self, ty, d):
+        """the body of a match arm / if branch in value position: a value, or (sometimes) an early exit - the other
+        arms then still produce the value, and everything the enclosing scopes own is released on both paths"""
+        r = self.r
+        if self.has("ret") and self.cur_rt is not None and self.in_for == 0 and r.random() < 0.15:
+            e = self.expr(self.cur_rt, max(d - 1, 0), True) if self.cur_rt != "unit" else None
+            return {"k": "ret", "e": [e] if e is not None else []}
+        return self.expr(ty, d)
+
     def match_expr(self, ty, d):
         r = self.r
         cands = [(n, t) for (n, t) in self.all_vars()
@@ -514,7 +525,7 @@ class Gen:
         cut = r.randint(1, len(order) - 1) if use_wild else len(order)
         for i, (v, ts) in enumerate(order):
             if use_wild and i == cut:
-                arms.append({"v": "_", "bs": [], "g": [], "b": self.expr(ty, d - 1)})
+                arms.append({"v": "_", "bs": [], "g": [], "b": self.arm_body(ty, d - 1)})
                 break
             bs = [self.fresh("m") for _ in ts]
             self.push()
@@ -529,17 +540,25 @@ class Gen:
                 self.push()
                 for b, bt in zip(bs2, ts):
                     self.declare(b, bt)
-                arms.append({"v": v, "bs": bs2, "g": [], "b": self.expr(ty, d - 1)})
+                arms.append({"v": v, "bs": bs2, "g": [], "b": self.arm_body(ty, d - 1)})
             else:
-                arms.append({"v": v, "bs": bs, "g": [], "b": self.expr(ty, d - 1)})
+                arms.append({"v": v, "bs": bs, "g": [], "b": self.arm_body(ty, d - 1)})
+            self.pop()
+        if all(a["b"]["k"] == "ret" for a in arms if not a["g"]):
+            # some arm has to give the match its type
+            last = [a for a in arms if not a["g"]][-1]
+            self.push()
+            for b, bt in zip(last["bs"], dict(variants).get(last["v"], [])):
+                self.declare(b, bt)
+            last["b"] = self.expr(ty, d - 1)
             self.pop()
         return {"k": "match", "e": var(n), "arms": arms}
 
     # ------------------------------------------------------------ statements / blocks
-    def vblock(self, ty, d):
+    def vblock(self, ty, d, exit_ok=False):
         self.push()
         ss = self.stmts(self.r.randint(0, 2), d)
-        e = self.expr(ty, d)
+        e = self.arm_body(ty, d) if exit_ok else self.expr(ty, d)
         self.pop()
         return block(ss, e)
 
